@@ -53,6 +53,7 @@ type Exec struct {
 	errs     []string
 	ghost    map[string]Value
 	assumed  map[string]bool
+	callees  map[string]bool // contracts of callees this execution relied on (keys of World.Specs)
 	ordinal  map[ssa.Instruction]int
 	globals  map[string]*Obj
 	gvals    map[*Obj]Value
